@@ -43,7 +43,7 @@ def cases(ctx):
     r = ctx.rnd
     t = ctx.tier == "thorough"
     S, N = ctx.shard, ctx.nshards
-    for i in range(90 if t else 8):
+    for i in range(600 if t else 8):
         x = r.choice(EDGE) if r.random() < 0.3 else r.randrange(1, ec.N)
         comp = r.random() < 0.5
         prefix = r.choice([0, 0x6F, r.randrange(256)])
@@ -67,13 +67,13 @@ def cases(ctx):
     for p in range(S, 256, N):
         yield {"k": "addr_hash", "hash": gen.rbytes(r, 20).hex(), "prefix": p}
     for zl in range(0, 21):
-        for rep in range(3 if t else 1):
+        for rep in range(12 if t else 1):
             if (zl + rep) % N != S % 21 and N > 21:
                 pass
             h = b"\x00" * zl + (bytes([r.randrange(1, 256)]) + gen.rbytes(r, 19 - zl) if zl < 20 else b"")
             for prefix in (0, 0, 0x6F, r.randrange(256)):
                 yield {"k": "addr_hash", "hash": h.hex(), "prefix": prefix}
-    for i in range(60 if t else 5):
+    for i in range(400 if t else 5):
         h = gen.rbytes(r, 20)
         if r.random() < 0.3:
             h = b"\x00" * r.randrange(1, 5) + h[: 20 - 4][:16] + gen.rbytes(r, 4)
@@ -91,7 +91,7 @@ def cases(ctx):
         yield {"k": "addr_corrupt", "s": s + r.choice(base58.ALPHABET)}
         for body in (h[:19], h + b"\x00", h[:1], b"", h + h):
             yield {"k": "addr_len", "s": base58.check_encode(bytes([prefix]) + body)}
-    for i in range(500 if t else 55):
+    for i in range(3000 if t else 55):
         kind = r.choice(["on", "on_u", "off", "off_u", "xgep", "ident", "tag", "len", "rand33", "rand65", "y_wrong"])
         x = r.randrange(1, ec.N)
         Q = ec.mul_g(x)
